@@ -8,6 +8,7 @@ import (
 
 	vh "github.com/emmansun/gmsm/verifhook"
 	"pgregory.net/rapid"
+	"verif/harness/gen"
 	"verif/harness/h"
 )
 
@@ -243,7 +244,7 @@ func checkBilinear(c pairCase, r *h.Rec) error {
 }
 
 func TestC09_Bilinear(t *testing.T) {
-	h.Prop(t, h.P{Name: "bilinear", Quick: 120, Thorough: 3000, Journal: true}, genPair, checkBilinear)
+	h.Prop(t, h.P{Name: "bilinear", Quick: 200, Thorough: 3000, Journal: true}, genPair, checkBilinear)
 }
 
 // ---------------------------------------------------------------- additivity, inverses
@@ -335,7 +336,7 @@ func checkPairAdd(c pairAddCase, r *h.Rec) error {
 }
 
 func TestC09_PairAdditive(t *testing.T) {
-	h.Prop(t, h.P{Name: "pair-additive", Quick: 60, Thorough: 1600, Journal: true}, genPairAdd, checkPairAdd)
+	h.Prop(t, h.P{Name: "pair-additive", Quick: 100, Thorough: 1600, Journal: true}, genPairAdd, checkPairAdd)
 }
 
 // ---------------------------------------------------------------- GT exponent laws
@@ -471,7 +472,7 @@ func checkGT(c gtCase, r *h.Rec) error {
 }
 
 func TestC09_GTLaws(t *testing.T) {
-	h.Prop(t, h.P{Name: "gt-laws", Quick: 60, Thorough: 2000, Journal: true}, genGT, checkGT)
+	h.Prop(t, h.P{Name: "gt-laws", Quick: 100, Thorough: 2000, Journal: true}, genGT, checkGT)
 }
 
 // ---------------------------------------------------------------- GT single-window sweeps
@@ -518,4 +519,43 @@ func TestC09_GTWindowBase(t *testing.T) {
 func TestC09_GTWindowVar(t *testing.T) {
 	h.MarkExhaustive("gt-window-var")
 	h.Sweep(t, h.P{Name: "gt-window-var", Journal: true}, enumGTWin(false), checkGTWin)
+}
+
+// ---------------------------------------------------------------- RandomG1 / RandomG2 / RandomGT
+
+type rndCase struct{ Seed uint64 }
+
+// The returned scalar and element must belong together: 0 < k < n and the
+// element is [k]Gen resp. e(Gen1,Gen2)^k. The reader is a deterministic byte
+// string; how many bytes are consumed does not matter to the relation.
+func checkRandom(c rndCase, r *h.Rec) error {
+	r.Label("random-element")
+	r.NT()
+	rd := func(i uint64) *bytes.Reader { return bytes.NewReader(gen.Fill(gen.Mix(c.Seed, i), 4096)) }
+	inRange := func(k *big.Int) bool { return k != nil && k.Sign() > 0 && k.Cmp(bnN) < 0 }
+	k1, p, err := vh.RandomG1(rd(1))
+	if err != nil || !inRange(k1) {
+		return fmt.Errorf("RandomG1: k=%v err=%v", k1, err)
+	}
+	if err := eqBytes(fmt.Sprintf("RandomG1 returned k=%x and a point that is not [k]Gen1", k1), grp1.view(p), g1Bytes(e1.mul(gen1, k1))); err != nil {
+		return err
+	}
+	k2, q, err := vh.RandomG2(rd(2))
+	if err != nil || !inRange(k2) {
+		return fmt.Errorf("RandomG2: k=%v err=%v", k2, err)
+	}
+	if err := eqBytes(fmt.Sprintf("RandomG2 returned k=%x and a point that is not [k]Gen2", k2), grp2.view(q), g2Bytes(e2.mul(gen2, k2))); err != nil {
+		return err
+	}
+	k3, e, err := vh.RandomGT(rd(3))
+	if err != nil || !inRange(k3) {
+		return fmt.Errorf("RandomGT: k=%v err=%v", k3, err)
+	}
+	return eqBytes(fmt.Sprintf("RandomGT returned k=%x and an element that is not e(Gen1,Gen2)^k", k3), gtView(e), refGT(k3))
+}
+
+func TestC09_Random(t *testing.T) {
+	h.Prop(t, h.P{Name: "random-element", Quick: 40, Thorough: 800, Journal: true}, func(t *rapid.T) rndCase {
+		return rndCase{rapid.Uint64().Draw(t, "seed")}
+	}, checkRandom)
 }
